@@ -24,6 +24,7 @@ RULE = (
     "values (partial and complete), random subsets above; evidence followed by integrate / conjugate; "
     "concatenate of 1-4 operands with different scopes incl. the same operand twice; 4 flags; "
     "sum-product / lse-sum / complex-lse-sum; batch sizes incl. 1; distinct = (structure, observed set)"
+    " Also: integer and float observations side by side, two rounds on the same compiled objects (in-place update, eval() mode before the first or the second round);"
 )
 EXHAUSTIVE_SUBSPACES = ["all non-empty observation subsets for circuits with <= 4 variables", "all 4 (fold, optimize) combinations (even cases)"]
 ASSUMPTIONS = ["reference interpreter vf/ref.py", "observations are in-domain values of the observed variable"]
